@@ -32,7 +32,11 @@ type c03Case struct {
 	Cfg int     `json:"cfg"` // 0 response-signed, 1 assertion-signed, 2 skip-signature; +3: no IdP issuer configured
 }
 
-var c03CfgNames = []string{"response-signed", "assertion-signed", "skip-signature", "response-signed/no-idp-issuer", "assertion-signed/no-idp-issuer", "skip-signature/no-idp-issuer", "response-signed/encrypted-assertions", "assertion-signed/encrypted-assertions"}
+var c03CfgNames = []string{"response-signed", "assertion-signed", "skip-signature", "response-signed/no-idp-issuer", "assertion-signed/no-idp-issuer", "skip-signature/no-idp-issuer", "response-signed/encrypted-assertions", "assertion-signed/encrypted-assertions", "skip-signature/encrypted-assertions", "skip-signature/encrypted-assertions/no-idp-issuer"}
+
+// cfg 8 and 9: signature checking is off, so nothing is decrypted: the Response has no (plaintext)
+// assertion whatever the EncryptedAssertion elements hold and must be rejected for that
+func c03SkipEnc(cfg int) bool { return cfg >= 8 }
 
 type c03Viol struct {
 	What  string
@@ -102,14 +106,14 @@ func c03Spec(d c03Dims, cfg int) idp.ResponseSpec {
 		case 3:
 			a.SCDNotOnOrAfter = "next tuesday"
 		}
-		if cfg%3 == 1 || cfg == 7 {
+		if (cfg < 6 && cfg%3 == 1) || cfg == 7 {
 			a.Sign = idp.SignSpec{Key: "K1"}
 		}
 		if cfg >= 6 {
 			a.Encrypt = &idp.EncSpec{}
 		}
 	}
-	if cfg%3 == 0 {
+	if cfg == 0 || cfg == 3 || cfg == 6 {
 		r.Sign = idp.SignSpec{Key: "K1"}
 	}
 	return r
@@ -117,7 +121,7 @@ func c03Spec(d c03Dims, cfg int) idp.ResponseSpec {
 
 // c03Model computes the violated checks from the dimensions (not from the bytes).
 func c03Model(d c03Dims, cfg int) []c03Viol {
-	issuerConfigured := cfg < 3 || cfg >= 6
+	issuerConfigured := cfg < 3 || (cfg >= 6 && cfg != 9)
 	var v []c03Viol
 	if d.Version != 0 {
 		v = append(v, c03Viol{"Response Version", []string{"SAML version", "Version"}, []string{"ErrInvalidValue", "ErrMissingElement"}})
@@ -141,6 +145,9 @@ func c03Model(d c03Dims, cfg int) []c03Viol {
 	}
 	if d.N == 0 {
 		v = append(v, c03Viol{"no assertion", []string{"Assertion"}, []string{"ErrMissingElement"}})
+	}
+	if c03SkipEnc(cfg) && d.N > 0 {
+		return append(v, c03Viol{"no plaintext assertion", []string{"Assertion"}, []string{"ErrMissingElement"}})
 	}
 	for i := 0; i < d.N; i++ {
 		a := d.A[i]
@@ -180,6 +187,9 @@ func c03Model(d c03Dims, cfg int) []c03Viol {
 }
 
 func c03Conf(cfg int) world.SPConf {
+	if c03SkipEnc(cfg) {
+		return world.SPConf{Store: []string{"K1"}, SkipSig: true, NoIssuer: cfg == 9}
+	}
 	if cfg >= 6 {
 		return world.SPConf{Store: []string{"K1"}}
 	}
@@ -326,7 +336,7 @@ func c03Cases(thorough bool, stop func() bool) (cases []c03Case, shapes int, bou
 }
 
 func c03Run(r *mc.Run) {
-	r.Rule = "deviation-bounded DFS over profile-fault dimensions (Response: version, destination, issuer, status; per assertion position: issuer, subject structure, recipient, NotOnOrAfter) for n=0..3 assertions x 8 configurations (Response-signed, assertion-signed, skip-signature, each with and without a configured IdP issuer; Response- and assertion-signed with every assertion encrypted) x 2 entry points, each case judged on fresh instances and again, in sequence on one goroutine, on long-lived instances (one per configuration); non-trivial = the document got past decoding and signature processing into the profile validation (error is nil or a typed validation error); distinct = distinct (dims,cfg)"
+	r.Rule = "deviation-bounded DFS over profile-fault dimensions (Response: version, destination, issuer, status; per assertion position: issuer, subject structure, recipient, NotOnOrAfter) for n=0..3 assertions x 10 configurations (Response-signed, assertion-signed, skip-signature, each with and without a configured IdP issuer; Response- and assertion-signed with every assertion encrypted; skip-signature with every assertion encrypted, where nothing is decrypted and the Response must be rejected for having no assertion, with and without a configured issuer) x 2 entry points, each case judged on fresh instances and again, in sequence on one goroutine, on long-lived instances (one per configuration); non-trivial = the document got past decoding and signature processing into the profile validation (error is nil or a typed validation error); distinct = distinct (dims,cfg)"
 	cases, shapes, bounds, complete := c03Cases(r.Thorough(), r.Expired)
 	if !complete {
 		r.Cap("enumeration stopped by deadline")
